@@ -9,9 +9,11 @@ Definition fld (t : qty) : sfield := {| sf_ty := t; sf_skip := false |}.
 Definition sstruct (n : string) (fs : list qty) : ritem := RStruct (L n) true true (map fld fs).
 Definition senum (n : string) : ritem := REnum (L n) true.
 Definition scmd (n : string) (ps : list (string * qty)) (r : option qty) (es : list emit_site) : ritem :=
-  RFn (L n) true (map (fun x => (L (fst x), snd x)) ps) r es.
+  RFn (L n) true (map (fun x => (L (fst x), snd x)) ps) r (map SEmit es).
 Definition sfn (n : string) (ps : list (string * qty)) (es : list emit_site) : ritem :=
-  RFn (L n) false (map (fun x => (L (fst x), snd x)) ps) None es.
+  RFn (L n) false (map (fun x => (L (fst x), snd x)) ps) None (map SEmit es).
+Definition sfnb (n : string) (ps : list (string * qty)) (b : list stmt) : ritem :=
+  RFn (L n) false (map (fun x => (L (fst x), snd x)) ps) None b.
 Definition semit (n : string) (pl : payload) : emit_site := {| em_name := L n; em_recv := L "app"; em_payload := pl |}.
 Definition app_ty : qty := QPath [L "tauri"] (L "AppHandle") false [].
 Definition mk (l : list ritem) : proj := {| pj_items := l; pj_maps := [] |}.
@@ -51,5 +53,13 @@ Definition w_same_event_twice :=
   mk [s_user; scmd "touch" [("app", app_ty); ("u", T0 "User")] None [semit "user:updated/now" (PVar (L "u")); semit "user:updated/now" (PVar (L "u"))]].
 Definition w_ipc_channel :=
   mk [s_user; scmd "watch" [("on_ev", QPath [L "ipc"] (L "Channel") true [T0 "User"])] None []].
+(* re-bindings of the payload variable: an initialiser that cannot be typed keeps the earlier entry;
+   a struct literal and a typed let replace it *)
+Definition w_rebind :=
+  mk [sstruct "Summary" [T0 "Detail"]; sstruct "Detail" [T0 "i32"]; sstruct "Other" [T0 "bool"]; scmd "ping" [] None [];
+      sfnb "publish" [("app", app_ty); ("summary", T0 "Summary")]
+        [SLet (L "summary") IOther; SEmit (semit "summary-ready" (PVar (L "summary")));
+         SLet (L "copy") (IRef (IVar (L "summary"))); SEmit (semit "copy-ready" (PVar (L "copy")));
+         SLetTy (L "summary") (T0 "Other"); SLet (L "summary") IOther; SEmit (semit "other-ready" (PVar (L "summary")))]].
 Definition w_collision :=
   mk [sstruct "GetUserParams" [T0 "i32"]; scmd "get_user" [("id", T0 "i32"); ("p", T0 "GetUserParams")] None []].
